@@ -26,12 +26,27 @@ BUILTIN_SIG = {
 }
 
 
+VERSIONS = [None, 1, 2, 7, 2.0, 1e3, 2 ** 31, 2 ** 31 - 1, 2 ** 40, 0, -1]
+
+
+def _version(uri, text):
+    return VERSIONS[(len(text) * 7 + len(uri)) % len(VERSIONS)]
+
+
 def req_open(uri, text):
-    return {"method": "textDocument/didOpen", "params": {"textDocument": {"uri": uri, "text": text}}}
+    td = {"uri": uri, "text": text, "languageId": "numscript"}
+    v = _version(uri, text)
+    if v is not None:
+        td["version"] = v         # clients number their versions; the handler never looks at the number
+    return {"method": "textDocument/didOpen", "params": {"textDocument": td}}
 
 
 def req_change(uri, text):
-    return {"method": "textDocument/didChange", "params": {"textDocument": {"uri": uri}, "contentChanges": [{"text": "stale"}, {"text": text}]}}
+    td = {"uri": uri}
+    v = _version(uri, text + "x")
+    if v is not None:
+        td["version"] = v
+    return {"method": "textDocument/didChange", "params": {"textDocument": td, "contentChanges": [{"text": "stale"}, {"text": text}]}}
 
 
 def req_hover(uri, pos):
